@@ -58,6 +58,25 @@ macro_rules! subject_1d {
                 match op {
                     0..=3 => self.ip.interp(q[op]).map(|a| bits(a.iter())).map_err(|e| e.to_string()),
                     6 => self.ip.interp(self.x[0] - 41.3).map(|a| bits(a.iter())).map_err(|e| e.to_string()),
+                    7 | 8 => {
+                        // a batch of 2^15 + 3 elements (code that hands long batches to worker threads),
+                        // op 8 with an element out of range near the start; answer = digest of every value
+                        let n = self.x.len();
+                        let mut big: Vec<f64> = (0..(1usize << 15) + 3).map(|k| self.x[k % (n - 1)] + (0.11 + 0.013 * (k % 7) as f64) * (self.x[k % (n - 1) + 1] - self.x[k % (n - 1)])).collect();
+                        if op == 8 {
+                            big[5] = self.x[n - 1] + 100.0;
+                        }
+                        self.ip.interp_array(&Array1::from(big)).map(|a| {
+                            let mut h = 0xcbf29ce484222325u64;
+                            for v in a.iter() {
+                                h = (h ^ v.to_bits()).wrapping_mul(0x100000001b3);
+                            }
+                            let mut d = bits(a.iter().take(4));
+                            d.push(h);
+                            d.push(a.len() as u64);
+                            d
+                        }).map_err(|e| e.to_string())
+                    }
                     5 => {
                         // a long batch (1100 in-range elements): code that treats long batches specially
                         let n = self.x.len();
@@ -124,9 +143,15 @@ thread_local! {
     static POINTS: Cell<u64> = const { Cell::new(0) };
     static COUNTING: Cell<bool> = const { Cell::new(false) };
     static EXPLORING: Cell<bool> = const { Cell::new(false) };
+    /// programs with the 2^15-element batches run without the hook points (one per query element
+    /// would be 10^5 decisions): atomics, locks, cells, spawn and join remain scheduling points
+    static NO_HOOKS: Cell<bool> = const { Cell::new(false) };
 }
 
 fn sched_hook(_l: &'static str) {
+    if NO_HOOKS.with(|c| c.get()) {
+        return;
+    }
     if COUNTING.with(|c| c.get()) {
         POINTS.with(|c| c.set(c.get() + 1));
     } else if EXPLORING.with(|c| c.get()) {
@@ -157,6 +182,49 @@ fn main() {
     let quick = !std::env::args().any(|a| a == "thorough");
     let only: Option<String> = std::env::args().skip_while(|a| a != "--only-key").nth(1);
     std::env::set_var("SHUTTLE_SILENCE_WARNINGS", "1");
+    // One process per slice of the programs, each exploring on a single OS thread: shuttle's atomics
+    // are not thread safe across executions, so a `static` atomic of the crate must never be touched
+    // by two explorations at once (it would fail inside shuttle, not inside the crate).
+    let slice: Option<(usize, usize)> = std::env::args().skip_while(|a| a != "--slice").nth(1).and_then(|s| s.split_once('/').map(|(a, b)| (a.parse().unwrap(), b.parse().unwrap())));
+    if slice.is_none() && only.is_none() {
+        let n: usize = std::env::var("NIMC_THREADS").ok().and_then(|s| s.parse().ok()).unwrap_or(8);
+        let exe = std::env::current_exe().expect("current exe");
+        let kids: Vec<_> = (0..n)
+            .map(|i| std::process::Command::new(&exe).arg(if quick { "quick" } else { "thorough" }).arg("--slice").arg(format!("{i}/{n}")).stdout(std::process::Stdio::piped()).stderr(std::process::Stdio::null()).spawn().expect("start a slice"))
+            .collect();
+        let mut totals: std::collections::BTreeMap<String, u64> = Default::default();
+        let mut order: Vec<String> = vec![];
+        let mut all_ok = true;
+        for k in kids {
+            let o = k.wait_with_output().expect("slice output");
+            let text = String::from_utf8_lossy(&o.stdout).to_string();
+            let mut got = false;
+            for line in text.lines() {
+                if line.starts_with("C17S-VIOLATION") {
+                    println!("{line}");
+                } else if let Some(rest) = line.strip_prefix("C17S-RESULT ") {
+                    got = true;
+                    for kv in rest.split_whitespace() {
+                        if let Some((k, v)) = kv.split_once('=') {
+                            let v: u64 = v.parse().unwrap_or(0);
+                            if !totals.contains_key(k) {
+                                order.push(k.to_string());
+                            }
+                            let e = totals.entry(k.to_string()).or_insert(0);
+                            if k == "cell_accesses_are_scheduling_points" { *e = v } else { *e += v }
+                        }
+                    }
+                }
+            }
+            all_ok &= got;
+        }
+        if !all_ok {
+            eprintln!("a slice of the programs did not finish");
+            std::process::exit(101);
+        }
+        println!("C17S-RESULT {}", order.iter().map(|k| format!("{k}={}", totals[k])).collect::<Vec<_>>().join(" "));
+        return;
+    }
     nimc::driver::install_panic_hook();
     assert!(verif_hooks::install_sched_point(sched_hook));
     // accesses to std::cell types of the subject are scheduling points as well (verif_std::cell)
@@ -164,17 +232,17 @@ fn main() {
     let budget = if quick { 4.0e5 } else { 2.0e8 };
     // The number of scheduling points of an op (hooks; atomics are added by the scheduler itself)
     // must be measured inside an execution, because the subject's primitives are shuttle's.
-    let pts: Arc<Mutex<Vec<Vec<u64>>>> = Arc::new(Mutex::new(vec![vec![0; 7]; KINDS.len()]));
+    let pts: Arc<Mutex<Vec<Vec<u64>>>> = Arc::new(Mutex::new(vec![vec![0; 9]; KINDS.len()]));
     {
         let pts = pts.clone();
         EXPLORING.with(|c| c.set(true));
-        shuttle::check_dfs(
+        shuttle::Runner::new(nimc::sched::PbDfs::single(), shuttle::Config::new()).run(
             move || {
                 COUNTING.with(|c| c.set(true));
                 for kind in 0..KINDS.len() {
                     let w = build(kind);
-                    for op in 0..7 {
-                        if op == 5 && kind == 2 {
+                    for op in 0..9 {
+                        if (op == 5 || op >= 7) && kind == 2 {
                             continue;
                         }
                         POINTS.with(|c| c.set(0));
@@ -184,7 +252,6 @@ fn main() {
                 }
                 COUNTING.with(|c| c.set(false));
             },
-            None,
         );
     }
     let pts = pts.lock().unwrap().clone();
@@ -200,6 +267,11 @@ fn main() {
             programs.push(Program { kind, threads: vec![vec![6, 6], vec![3]] });
             programs.push(Program { kind, threads: vec![vec![3], vec![6]] });
             programs.push(Program { kind, threads: vec![vec![6], vec![1]] });
+        }
+        if kind == 0 || kind == 1 {
+            // batches long enough for code that spreads them over worker threads of its own
+            programs.push(Program { kind, threads: vec![vec![8], vec![7]] });
+            programs.push(Program { kind, threads: vec![vec![7], vec![7]] });
         }
         if kind == 0 || kind == 4 {
             // a 1100-element batch next to an out-of-range query and next to an ordinary query
@@ -217,12 +289,27 @@ fn main() {
         }
     }
     use std::sync::atomic::{AtomicU64, AtomicUsize, Ordering as AO};
-    let (nprog, nsched, nviol, nfull, capped) = (AtomicU64::new(0), AtomicU64::new(0), AtomicU64::new(0), AtomicU64::new(0), AtomicU64::new(0));
+    let (nprog, nsched, nviol, nfull, capped, nstopped) = (AtomicU64::new(0), AtomicU64::new(0), AtomicU64::new(0), AtomicU64::new(0), AtomicU64::new(0), AtomicU64::new(0));
     let t0 = std::time::Instant::now();
     let max_s: f64 = std::env::var("NIMC_C17S_MAX_S").ok().and_then(|s| s.parse().ok()).unwrap_or(if quick { 120.0 } else { 1500.0 });
     let next = AtomicUsize::new(0);
-    let workers: usize = std::env::var("NIMC_THREADS").ok().and_then(|s| s.parse().ok()).unwrap_or(8);
+    let workers: usize = 1;
+    if let Some((i, n)) = slice {
+        let mut k = 0usize;
+        programs.retain(|_| {
+            k += 1;
+            (k - 1) % n == i
+        });
+    }
     let run_one = |p: &Program| {
+        struct Restore;
+        impl Drop for Restore {
+            fn drop(&mut self) {
+                NO_HOOKS.with(|c| c.set(false));
+            }
+        }
+        let _restore = Restore;
+        NO_HOOKS.with(|c| c.set(p.threads.iter().flatten().any(|&o| o >= 7)));
         // size of the program: one execution under the default schedule counts every scheduling
         // decision (hook points *and* atomic / lock operations of the subject)
         let steps = Arc::new(std::sync::atomic::AtomicUsize::new(0));
@@ -256,21 +343,18 @@ fn main() {
             }
         }
         // sequential answers, computed inside an execution
-        let canon: Arc<Mutex<Vec<Option<Out>>>> = Arc::new(Mutex::new(vec![None; 7]));
+        let canon: Arc<Mutex<Vec<Option<Out>>>> = Arc::new(Mutex::new(vec![None; 9]));
         {
             let canon = canon.clone();
             let kind = p.kind;
             let used: Vec<usize> = p.threads.iter().flatten().cloned().collect();
             let r = std::panic::catch_unwind(std::panic::AssertUnwindSafe(|| {
-                shuttle::check_dfs(
-                    move || {
-                        for &o in &used {
-                            let v = build(kind).op(o);
-                            canon.lock().unwrap()[o] = Some(v);
-                        }
-                    },
-                    None,
-                )
+                shuttle::Runner::new(nimc::sched::PbDfs::single(), shuttle::Config::new()).run(move || {
+                    for &o in &used {
+                        let v = build(kind).op(o);
+                        canon.lock().unwrap()[o] = Some(v);
+                    }
+                })
             }));
             if r.is_err() {
                 // an op of the alphabet never panics on a fresh interpolator: it does so here because of
@@ -288,7 +372,10 @@ fn main() {
         let kind = p.kind;
         let mut cfg = shuttle::Config::new();
         cfg.failure_persistence = shuttle::FailurePersistence::None;
-        let runner = shuttle::Runner::new(nimc::sched::PbDfs::new(bound), cfg);
+        // a program whose search is still running after its share of the wall time is stopped and counted
+        let stopped = Arc::new(std::sync::atomic::AtomicBool::new(false));
+        let per_program = if quick { 40.0 } else { 300.0 };
+        let runner = shuttle::Runner::new(nimc::sched::PbDfs::new(bound).with_deadline(std::time::Instant::now() + std::time::Duration::from_secs_f64(per_program), stopped.clone()), cfg);
         let r = std::panic::catch_unwind(std::panic::AssertUnwindSafe(|| {
             runner.run(move || {
                 let w: Arc<Box<dyn Subject>> = Arc::new(build(kind));
@@ -315,7 +402,9 @@ fn main() {
         match r {
             Ok(n) => {
                 nsched.fetch_add(n as u64, AO::SeqCst);
-                if bound == usize::MAX {
+                if stopped.load(AO::SeqCst) {
+                    nstopped.fetch_add(1, AO::SeqCst);
+                } else if bound == usize::MAX {
                     nfull.fetch_add(1, AO::SeqCst);
                 }
             }
@@ -339,8 +428,8 @@ fn main() {
         }
     });
     println!(
-        "C17S-RESULT programs={} every_interleaving={} schedules={} violations={} not_run_because_of_the_time_cap={} cell_accesses_are_scheduling_points={}",
-        nprog.load(AO::SeqCst), nfull.load(AO::SeqCst), nsched.load(AO::SeqCst), nviol.load(AO::SeqCst), capped.load(AO::SeqCst), verif_std::cell::WRAPPED as u8
+        "C17S-RESULT programs={} every_interleaving={} schedules={} violations={} not_run_because_of_the_time_cap={} cell_accesses_are_scheduling_points={} searches_stopped_by_the_per_program_time_cap={}",
+        nprog.load(AO::SeqCst), nfull.load(AO::SeqCst), nsched.load(AO::SeqCst), nviol.load(AO::SeqCst), capped.load(AO::SeqCst), verif_std::cell::WRAPPED as u8, nstopped.load(AO::SeqCst)
     );
 }
 
